@@ -125,7 +125,7 @@ func c13Judge(c c13Case, w ast.Word) (class, detail string, nontrivial bool) {
 func c13Sources(thorough bool) []string {
 	names := []string{"v", "1", "10", "@", "*", "#", "?", "0", "-", "!"}
 	words := []string{"", "w", "$y", "${z:=s}", "'q q'", "a b", "\"$@\"", "*", "${z:+a}${z:=b}"}
-	pats := []string{"*", "?", "a*", "'*'", "b", "[a-c]", "$y", "*b", "\\*", "é", "${z:=s}", "${q?}", "["}
+	pats := []string{"*", "?", "a*", "'*'", "b", "[a-c]", "$y", "*b", "\\*", "é", "${z:=s}", "${q?}", "[", "'\\'", "\"\\\\\"", "'b\\'*"}
 	_ = thorough
 	var inner []string
 	for _, n := range names {
@@ -154,7 +154,7 @@ func c13Sources(thorough bool) []string {
 
 func c13Run(w *W) {
 	srcs := c13Sources(w.thorough())
-	vstates := []*string{nil, strp(""), strp("v"), strp("a b"), strp("a:b"), strp("*"), strp("é"), strp("abab")}
+	vstates := []*string{nil, strp(""), strp("v"), strp("a b"), strp("a:b"), strp("*"), strp("é"), strp("abab"), strp("ab\\")}
 	eleven := []string{"sh", "p1", "p2", "p3", "p4", "p5", "p6", "p7", "p8", "p9", "abc", "p11"}
 	argsList := [][]string{{"sh"}, {"sh", ""}, {"sh", "a"}, {"sh", "a b", "c"}, eleven, {"sh", "", ""}}
 	ifsList := []*string{strp(" \t\n"), strp(":"), strp(""), nil}
